@@ -663,6 +663,18 @@ def witness_publish():
         s.stop()
 
 
+def source_switches():
+    """the quirk switches as translator/tx_facts.py reads them off the current source (the Lean driver runs
+    `Quirks.ofSource`, built from the same facts): shape -> does the tree still deviate?"""
+    sys.path.insert(0, os.path.join(VERIF, "translator"))
+    import extract
+    import tx_facts
+    f = tx_facts.facts(extract.src, extract.strip_comments, extract.fn_body, extract.REPO)
+    pre, thru = f.get("pre_queue"), f.get("pass_through")
+    return {"select-in-exec": f.get("select_ignored"), "blocking-in-exec": f.get("blocking_unguarded"),
+            "immediate-in-multi": None if pre is None or thru is None else any(n not in thru for n in pre)}
+
+
 WITNESSES = {"select-in-exec": witness_select, "blocking-in-exec": witness_blocking, "immediate-in-multi": witness_publish}
 
 
@@ -774,7 +786,9 @@ def main(tier, seed):
     elif min(w["counts"].get(k, 0) for k in ("transfer.multi", "transfer.pipelined", "transfer.lua", "observe.mget", "observe.multi-get")) == 0:
         raise InternalError("workload made no progress: %r" % w["counts"])
 
-    # ---------------- (iv) witnesses of listed findings
+    # ---------------- (iv) witnesses of listed findings, against the switches the translator reads off the source
+    sw = source_switches()
+    rep.extra["source_switches"] = sw
     stale = []
     for shape, fn in WITNESSES.items():
         wres = fn()
@@ -786,10 +800,10 @@ def main(tier, seed):
                 known_seen.setdefault(findings[shape]["id"], (findings[shape], {"kind": "witness", "shape": shape}))
             else:
                 new_fail.append(("witness %s: the implementation deviates from the property" % shape, {"kind": "witness", "shape": shape, "observed": wres}, {}))
-        elif wres["prescribed"]:
-            stale.append(shape)      # fixed in the tree: the Code model (Quirks.code) is stale; the table theorem code_quirks_match_source says so too
-        else:
+        elif not wres["prescribed"]:
             new_fail.append(("witness %s: neither the listed deviation nor the prescribed behaviour" % shape, {"kind": "witness", "shape": shape, "observed": wres}, {}))
+        if sw.get(shape) is not None and sw[shape] != wres["deviates"]:
+            stale.append("%s: translator switch says %s, server %s" % (shape, "deviates" if sw[shape] else "fixed", "deviates" if wres["deviates"] else "behaves as prescribed"))
 
     # ---------------- verdict
     for fid, (f, where) in known_seen.items():
@@ -807,7 +821,7 @@ def main(tier, seed):
         rep.violation("proof obligations of C07 no longer check against the regenerated tables/model", {"theorem_errors": errs[:10], "log_tail": log[-3000:]}, no_input=True)
     elif [d for d in disagreements if not d.get("with_oracle_failure")] or stale:
         real = [d for d in disagreements if not d.get("with_oracle_failure")]
-        rep.violation("correspondence Tx.processFrame (code variant) vs server broke (%d disagreements, stale switches: %s) although the property's oracle holds"
+        rep.violation("correspondence Tx.processFrame (source variant) vs server broke (%d disagreements; switches: %s) although the property's oracle holds"
                       % (len(real), stale), {"correspondence": "Ferrous.Tx.processFrame / Tx.run vs ferrous over TCP", "disagreements": real[:6], "stale": stale}, no_input=True)
     return rep.finish()
 
